@@ -258,3 +258,10 @@ fn bprime_entry_point_mapping_is_first() {
     }
     println!("BPRIME evaluations={n}");
 }
+
+impl PtraceDumper {
+    /// test-only: run the private enumerate_mappings (used by sibling replay modules)
+    pub(crate) fn enumerate_mappings_for_replay(&mut self) {
+        self.enumerate_mappings().expect("enumerate_mappings");
+    }
+}
